@@ -22,6 +22,9 @@ package main
 import (
 	"bytes"
 	"fmt"
+	"go/ast"
+	"go/parser"
+	"go/token"
 	"math/rand"
 	"os"
 	"os/exec"
@@ -79,7 +82,7 @@ func c13Parse(c string) (cs c13Case, ok bool) {
 				return cs, false
 			}
 			n, err := strconv.Atoi(w[:k])
-			if err != nil || n < 0 || n > 1<<30 {
+			if err != nil || n < 1 || n > 1<<30 {
 				return cs, false
 			}
 			s, ok := unhx(w[k+1:])
@@ -104,7 +107,7 @@ func c13Parse(c string) (cs c13Case, ok bool) {
 					return cs, false
 				}
 				n, err := strconv.Atoi(kv[e+1:])
-				if err != nil || n < 0 || n > 1<<30 {
+				if err != nil || n < 1 || n > 1<<30 {
 					return cs, false
 				}
 				if _, dup := m[kv[:1]]; dup {
@@ -379,12 +382,104 @@ func c13WorkerPlan(workers int) (ws []int, repeats int) {
 		for w := 1; w <= 32; w++ {
 			ws = append(ws, w)
 		}
-		return ws, 6
+		return ws, 12
 	}
 	return []int{1, 2, 3, 4, 6, 8, 12, 16, 24, 32}, 2
 }
 
+// c13Fact (op `fact`): the structural fact the interleaving model is instantiated with (DESIGN T3): in the two
+// functions that run the worker pools, is every write of `.SonCount` done between Lock()/Unlock() of the same
+// block, or through sync/atomic? Result `synchronised` (the model's hypothesis `atomic = true`), else
+// `unsynchronised` / `unknown` and an oracle failure.
+func c13Fact() (string, []Fail) {
+	repo := os.Getenv("VERIF_REPO")
+	if repo == "" {
+		repo = "/repo"
+	}
+	file := filepath.Join(repo, "pkg", "obitools", "obiclean", "graph.go")
+	fset := token.NewFileSet()
+	f, err := parser.ParseFile(fset, file, nil, 0)
+	if err != nil {
+		return "unknown", []Fail{{"fact.unreadable", "cannot parse " + file + ": " + err.Error()}}
+	}
+	isCall := func(st ast.Stmt, name string) bool {
+		es, ok := st.(*ast.ExprStmt)
+		if !ok {
+			return false
+		}
+		call, ok := es.X.(*ast.CallExpr)
+		if !ok {
+			return false
+		}
+		sel, ok := call.Fun.(*ast.SelectorExpr)
+		return ok && sel.Sel.Name == name
+	}
+	touches := func(e ast.Expr) bool {
+		found := false
+		ast.Inspect(e, func(n ast.Node) bool {
+			if sel, ok := n.(*ast.SelectorExpr); ok && sel.Sel.Name == "SonCount" {
+				found = true
+			}
+			return true
+		})
+		return found
+	}
+	seen := map[string]bool{}
+	writes, unsync := 0, []string{}
+	for _, d := range f.Decls {
+		fd, ok := d.(*ast.FuncDecl)
+		if !ok || (fd.Name.Name != "buildSamplePairs" && fd.Name.Name != "extendSimilarityGraph") {
+			continue
+		}
+		seen[fd.Name.Name] = true
+		ast.Inspect(fd.Body, func(n ast.Node) bool {
+			switch x := n.(type) {
+			case *ast.BlockStmt:
+				for i, st := range x.List {
+					w := false
+					switch y := st.(type) {
+					case *ast.IncDecStmt:
+						w = touches(y.X)
+					case *ast.AssignStmt:
+						for _, l := range y.Lhs {
+							w = w || touches(l)
+						}
+					}
+					if w {
+						writes++
+						if !(i > 0 && isCall(x.List[i-1], "Lock") && i+1 < len(x.List) && isCall(x.List[i+1], "Unlock")) {
+							unsync = append(unsync, fmt.Sprintf("%s:%d", fd.Name.Name, fset.Position(st.Pos()).Line))
+						}
+					}
+				}
+			case *ast.CallExpr:
+				if sel, ok := x.Fun.(*ast.SelectorExpr); ok {
+					if id, ok := sel.X.(*ast.Ident); ok && id.Name == "atomic" && strings.HasPrefix(sel.Sel.Name, "Add") {
+						for _, a := range x.Args {
+							if touches(a) {
+								writes++
+							}
+						}
+					}
+				}
+			}
+			return true
+		})
+	}
+	switch {
+	case !seen["buildSamplePairs"] || !seen["extendSimilarityGraph"] || writes == 0:
+		return "unknown", []Fail{{"fact.unknown", "buildSamplePairs / extendSimilarityGraph or their SonCount updates not found in graph.go: the tie of the interleaving model is broken"}}
+	case len(unsync) > 0:
+		return "unsynchronised", []Fail{{"fact.soncount-unsynchronised", "father.SonCount is written by the pool workers without lock or atomic at " + strings.Join(unsync, ", ")}}
+	}
+	return "synchronised", nil
+}
+
 func (c13) Exec(c string) (string, []Fail) {
+	if c == "fact soncount" {
+		stat("op:fact")
+		return c13Fact()
+	}
 	if strings.HasPrefix(c, "race ") {
 		stat("op:race")
 		return c13Race(strings.TrimPrefix(c, "race "))
@@ -648,6 +743,7 @@ func c13Line(op string, w, d int, r [2]int, items []c13Item) string {
 func (c13) Gen(rng *rand.Rand, tier string, emit func(string)) {
 	c13Tier = tier
 	// corpus. First line: the star on which the unsynchronised `father.SonCount++` (D13) loses updates.
+	emit("fact soncount")
 	star := c13Contention(rand.New(rand.NewSource(13)), 120)
 	emit(c13Line("g", 16, 1, [2]int{1, 1}, star))
 	emit(c13Line("g", 32, 1, [2]int{1, 2}, star))
@@ -676,9 +772,9 @@ func (c13) Gen(rng *rand.Rand, tier string, emit func(string)) {
 	} {
 		emit(c)
 	}
-	ncase, nstar, maxN := 160, 6, 40
+	ncase, nstar, maxN := 400, 10, 40
 	if tier == "thorough" {
-		ncase, nstar, maxN = 260, 8, 60
+		ncase, nstar, maxN = 300, 10, 60
 	}
 	workers := func() int {
 		if rng.Intn(3) == 0 {
@@ -814,26 +910,55 @@ func c13Race(inner string) (string, []Fail) {
 		}
 	}
 	stat("race-replay:done")
-	if rep := stderr.String(); strings.Contains(rep, "DATA RACE") {
-		n := strings.Count(rep, "WARNING: DATA RACE")
-		var where []string
-		for _, l := range strings.Split(rep, "\n") {
-			l = strings.TrimSpace(l)
-			if strings.Contains(l, "/obiclean/") && !strings.Contains(l, "verif_hooks") {
-				l = l[strings.LastIndex(l, "/obiclean/")+1:]
-				if k := strings.IndexByte(l, ' '); k > 0 {
-					l = l[:k]
+	// a report concerns this property when one of the two racing ACCESSES (not the goroutine creation stacks)
+	// has a frame in the anchored packages; races elsewhere (e.g. the debug counter of the obiiter pipe registry)
+	// are only counted
+	ours, other := 0, 0
+	var where []string
+	for _, block := range strings.Split(stderr.String(), "==================") {
+		if !strings.Contains(block, "WARNING: DATA RACE") {
+			continue
+		}
+		inAccess, mine := false, false
+		for _, l := range strings.Split(block, "\n") {
+			t := strings.TrimSpace(l)
+			switch {
+			case strings.HasPrefix(t, "Read at"), strings.HasPrefix(t, "Write at"), strings.HasPrefix(t, "Previous read at"),
+				strings.HasPrefix(t, "Previous write at"), strings.HasPrefix(t, "Atomic"), strings.HasPrefix(t, "Previous atomic"):
+				inAccess = true
+			case strings.HasPrefix(t, "Goroutine "):
+				inAccess = false
+			case inAccess && strings.Contains(t, ".go:"):
+				inAccess = false // only the innermost frame of the access: where the racing read / write IS
+				if strings.Contains(t, "verif_hooks") ||
+					!(strings.Contains(t, "/pkg/obitools/obiclean/") || strings.Contains(t, "/pkg/obialign/")) {
+					continue
+				}
+				mine = true
+				loc := t[strings.LastIndex(t, "/pkg/")+1:]
+				if k := strings.IndexByte(loc, ' '); k > 0 {
+					loc = loc[:k]
 				}
 				dup := false
 				for _, w := range where {
-					dup = dup || w == l
+					dup = dup || w == loc
 				}
 				if !dup && len(where) < 4 {
-					where = append(where, l)
+					where = append(where, loc)
 				}
 			}
 		}
-		fails = append(fails, Fail{"race.detector", fmt.Sprintf("the Go race detector reports %d data race(s) during the graph construction (at %s)", n, strings.Join(where, ", "))})
+		if mine {
+			ours++
+		} else {
+			other++
+		}
+	}
+	if other > 0 {
+		stat("race-replay:race-in-other-package")
+	}
+	if ours > 0 {
+		fails = append(fails, Fail{"race.detector", fmt.Sprintf("the Go race detector reports %d data race(s) in the graph construction (at %s)", ours, strings.Join(where, ", "))})
 		stat("race-replay:DATA-RACE")
 	}
 	return res, fails
